@@ -342,6 +342,15 @@ def run(prog: Program) -> Results:
             res.add("R-C09-9", (tse.key, "body layer stored twice"), tse.loc(rt),
                     f"{tse.key}: `{norm(rt)[:70]}` installs a stack that contains a snapshot of the body's own scope but leaves the body's "
                     f"`scope` in place: `let in let a = 1; in a` is rebuilt with the inner let twice")
+    from sa.rules import c03 as _shared_c03_10
+    _sub = _shared_c03_10.run(prog)
+    _st = _sub.rules.get("R-C03-8")
+    _r = res.rule("R-C09-10", "re-wrapping consumes every trivia slot of every layer on every path, so each layer keeps its own comments (shared with R-C03-8)", floor=5)
+    if _st:
+        _r.instances, _r.obligations, _r.discharged = _st.instances, _st.obligations, _st.discharged
+    for _f in _sub.findings:
+        if _f.rule == "R-C03-8":
+            res.add("R-C09-10", _f.key, _f.where, _f.message)
     from sa.rules import cursor
     cursor.check(prog, res, "R-C09-7", ("cli/manipulations.py",), 4)
     res.assumptions = ["contents of the other layers' text and name shadowing across layers are runtime data"]
